@@ -20,6 +20,7 @@
   remove it (pairwise distinct sibling ranks; defect D5 is the refutation without it).
 -/
 import LccModel.Lemmas.WriterSwap
+import LccModel.Lemmas.WriterTrace
 
 namespace LccModel.C05
 open LccModel.Report LccModel.Writer
@@ -232,6 +233,34 @@ theorem report_independent_of_interleaving_of_two_tasks {pre post A B es es' : L
       SameContent r₁ r₂ ∧ (DistinctSiblingRanks r₁ → view r₁ = view r₂) :=
   report_independent_of_interleaving (interleavings_swapEquiv h h' hi) hd
 
+/-- **Two schedules of the same run** (any number of tasks and threads).  If two streams consist of the same events
+    (`Perm`, no event twice) and every two DEPENDENT events (`¬ Indep`: same result location, same thread, a suite start
+    and what happens inside the suite, …) are ordered the same way by both — which is what two schedules of one run
+    differ by, and what the harness checks on every pair (N threads, 1 thread) of real streams after renaming thread ids
+    and times — then they are swap-equivalent (the projection lemma of trace theory, `Lemmas/WriterTrace.lean`). -/
+theorem schedules_are_swapEquiv {es₁ es₂ : List Event} (hn : es₁.Nodup) (hp : es₁.Perm es₂)
+    (hord : ∀ a b, a ≠ b → ¬ Indep a b → Before es₁ a b → Before es₂ a b) : SwapEquiv es₁ es₂ :=
+  swapEquiv_of_same_dependent_order es₁ es₂ hn hp hord
+
+/-- …hence **the report does not depend on the schedule**: same events, same order of the dependent ones, one of the
+    streams handled without error ⟹ the other one is too, the reports have the same content and, under distinct sibling
+    ranks, equal rank-sorted views. -/
+theorem report_independent_of_schedule {es₁ es₂ : List Event} (hn : es₁.Nodup) (hp : es₁.Perm es₂)
+    (hord : ∀ a b, a ≠ b → ¬ Indep a b → Before es₁ a b → Before es₂ a b) (hd : Disciplined es₁) :
+    Disciplined es₂ ∧ ∃ r₁ r₂, fold es₁ = .ok r₁ ∧ fold es₂ = .ok r₂ ∧ SameContent r₁ r₂ ∧
+      (DistinctSiblingRanks r₁ → view r₁ = view r₂) :=
+  report_independent_of_interleaving (schedules_are_swapEquiv hn hp hord) hd
+
+/-- **The check the harness runs on every pair of real streams is sound**: when the boolean `scheduleCheckB es₁ es₂`
+    (`Lemmas/WriterTrace.lean`, executed by `drivers/C05.lean` on the fired stream of the N-thread run and the re-labelled
+    stream of the 1-thread run) answers `true`, both streams are handled without error, the two reports have the same
+    content and, under distinct sibling ranks, equal views. -/
+theorem checked_schedules_give_the_same_report {es₁ es₂ : List Event} (h : scheduleCheckB es₁ es₂ = true) :
+    Disciplined es₂ ∧ ∃ r₁ r₂, fold es₁ = .ok r₁ ∧ fold es₂ = .ok r₂ ∧ SameContent r₁ r₂ ∧
+      (DistinctSiblingRanks r₁ → view r₁ = view r₂) := by
+  obtain ⟨hn, hp, hord, hd⟩ := scheduleCheckB_sound h
+  exact report_independent_of_schedule hn hp hord hd
+
 /-! ### non-vacuity: two tests of one suite run by two threads, two interleavings -/
 
 def evA (tid : Nat) : List Event :=
@@ -282,5 +311,12 @@ example : insertionNames (fold parallelRun') = [["a", "b"]] ∧ insertionNames (
 example : ∃ r₁ r₂, fold parallelRun' = .ok r₁ ∧ fold parallelRun = .ok r₂ ∧ SameContent r₁ r₂ ∧
     (DistinctSiblingRanks r₁ → view r₁ = view r₂) :=
   (report_independent_of_interleaving parallelRun_swapEquiv parallelRun'_disciplined).2
+
+/-- non-vacuity of `report_independent_of_schedule`: the two concrete runs above satisfy its hypotheses (decidable) -/
+example : scheduleCheckB parallelRun' parallelRun = true := by decide
+
+example : parallelRun'.Nodup ∧ parallelRun'.Perm parallelRun ∧
+    (∀ a ∈ parallelRun', ∀ b ∈ parallelRun', a ≠ b → ¬ Indep a b → Before parallelRun' a b → Before parallelRun a b) := by
+  refine ⟨by decide, by decide, by decide⟩
 
 end LccModel.C05
